@@ -9,6 +9,11 @@ from .common import walk_own
 
 PROP = "C18"
 LEVEL = "translation_validation"
+EXPLANATION_M8 = (
+    " M8 the read-only consumers (iterators, Walker, Resolver, RenderTree, search, util) never store attributes on foreign "
+    "objects, never inspect __dict__/__slots__/vars() and never use weakref - the capabilities in which the two storage "
+    "models differ."
+)
 EXPLANATION = (
     "Every member of LightNodeMixin is compared with its NodeMixin namesake after normalisation (docstrings removed, "
     "the class's own name and its name-mangling prefix mapped to a placeholder, parameters and locals alpha-renamed, "
@@ -16,7 +21,7 @@ EXPLANATION = (
     "(must list exactly the link fields written), the node-type checks of NodeMixin (must name both mixins, hence "
     "dead for tree-node arguments), the deprecated alias 'anchestors', imports. Free names used by both classes must "
     "resolve to the same definitions. Because the remaining code is the same program over a renamed pair of storage "
-    "slots, every history of tree-node calls behaves identically in both."
+    "slots, every history of tree-node calls behaves identically in both." + EXPLANATION_M8
 )
 ASSUMPTIONS = [
     "CPython name mangling and slot/dict attribute semantics",
@@ -467,6 +472,7 @@ def run(ctx):
         else:
             ctx.inst("M7", "%s LightNodeMixin" % lm.module.relpath, name, "same definition in both modules (%s)" % _r(ra))
     ctx.floor("M7", 4)
+    rule_M8_consumers(ctx)
     ctx.extra["programs"] = programs
     ctx.extra["disagreements_checked"] = table_hits + len(ctx.findings)
     ctx.extra["trusted_base"] = ["CPython name mangling", "slot vs dict attribute storage semantics", "python ast module"]
@@ -495,3 +501,58 @@ def _is_alias(f):
         if not (isinstance(s, ast.Expr) and isinstance(s.value, ast.Call) and norm(s.value.func) == "warnings.warn"):
             return False
     return True
+
+
+CONSUMERS = ("anytree/resolver.py", "anytree/walker.py", "anytree/render.py", "anytree/search.py", "anytree/cachedsearch.py",
+             "anytree/util/__init__.py", "anytree/iterators/")
+
+
+def rule_M8_consumers(ctx):
+    """M8: the read-only consumers named by the property (iterators, Walker, Resolver, RenderTree, search, util) treat a
+    node as opaque: they never store an attribute on an object that is not `self`, never look at __dict__/__slots__/
+    vars() and never take weak references.  These are exactly the capabilities in which a dict-based (NodeMixin) and a
+    slot-based (LightNodeMixin) node differ, so any use makes a query answer depend on the mixin."""
+    from .common import walk_own
+    p = ctx.p
+    n = 0
+    for rel, mod in sorted(p.modules.items()):
+        if not any(rel == c or (c.endswith("/") and rel.startswith(c)) for c in CONSUMERS):
+            continue
+        for name, (dotted, member) in mod.imports.items():
+            if dotted.split(".")[0] == "weakref":
+                ctx.viol("M8", None, mod.tree, "%s imports weakref: slot-based nodes without __weakref__ cannot be weakly referenced, "
+                         "so results differ between the two mixins" % rel, construct="import weakref", file=rel, qual="<module>", line=1)
+        funcs = [f for f in p.all_funcs if f.module is mod]
+        for f in funcs:
+            n += 1
+            own = {f.selfname} if f.selfname else set()
+            if f.kind == "class" and f.posparams:
+                own.add(f.posparams[0])
+            o = f.outer
+            while o is not None:
+                if o.selfname:
+                    own.add(o.selfname)
+                o = o.outer
+            bad = None
+            for node in walk_own(f.node):
+                if isinstance(node, ast.Attribute) and isinstance(node.ctx, (ast.Store, ast.Del)):
+                    root = node.value
+                    while isinstance(root, ast.Attribute):
+                        root = root.value
+                    if not (isinstance(root, ast.Name) and root.id in own and node.value is root):
+                        bad = (node, "stores the attribute `%s` on an object that is not its own instance" % norm(node))
+                elif isinstance(node, ast.Attribute) and node.attr in ("__dict__", "__slots__", "__weakref__"):
+                    bad = (node, "inspects `%s`" % norm(node))
+                elif isinstance(node, ast.Call) and isinstance(node.func, ast.Name) and node.func.id in ("setattr", "delattr", "vars"):
+                    a0 = node.args[0] if node.args else None
+                    if not (isinstance(a0, ast.Name) and a0.id in own and node.func.id != "vars"):
+                        bad = (node, "calls %s on an object that is not its own instance" % node.func.id)
+                elif isinstance(node, ast.Call) and "weakref" in norm(node.func):
+                    bad = (node, "takes a weak reference (%s)" % norm(node.func))
+                if bad is not None:
+                    ctx.viol("M8", f, bad[0], "%s %s: dict-based and slot-based nodes differ in exactly this capability, so the "
+                             "result depends on the mixin" % (f.qual, bad[1]))
+                    bad = None
+            ctx.inst("M8", f, f.node.name if hasattr(f.node, "name") else "<lambda>", "treats nodes as opaque")
+    ctx.floor("M8", 40)
+    return n
